@@ -73,6 +73,7 @@ func init() {
 		Rule: "programs = parameter map (placeholders and literal snippets; names colliding with columns, built-in constants and let names) + let sequence (chains, shadowing of lets and parameters, redefinition from the old value, unused lets; values: literal, signed literal, sum, comparison, call, built-in rewrite, reference) " +
 			"+ a seeded typed expression using the bound names in every operand slot, at each expression position (where, project, extend, summarize, sort, top, take, join on). oracle: lexical scoping model on the generator's trees (a binding is one operand) evaluated on enumerated rows against the emitted SQL with the same placeholder bindings; " +
 			"metamorphic: adding an unused let or parameter, or lets after the query (including ones that would not compile), leaves the SQL unchanged; 14 families of non-substitution positions (quoted, qualified, function name, table, aliases, as, render, join table) compile to the same SQL with and without the binding. " +
+			"by hand: a query in which the bound name also stands as an alias, quoted, qualified or as a function name before and between its uses compiles, with the name bound to a number, to the SQL of the query with the number written at the use sites and no binding. " +
 			"non-trivial = distinct program with at least one let or parameter actually used and two operator nodes",
 		FloorQuick: 4_000, FloorThorough: 150_000,
 		Assumptions: []string{
@@ -395,7 +396,7 @@ func generate(w *mon.W) {
 	}
 	// non-substitution positions
 	queries := []string{
-		"T | where `%s` == 1", "T | where %s.a == 1", "T | where a.%s == 1", "T | where %s(1) == 2", "%s | count", "T | project %s = a", "T | extend %s = 1",
+		"T | where `%s` == 1", "T | where %s.a == 1", "T | where a.%s == 1", "T | where %s(1) == 2", "%s | count", "%s", "%s;", "%s | as r", "let other1 = 1; %s // c\n", "T | project %s = a", "T | extend %s = 1",
 		"T | summarize %s = count() by k", "T | summarize c = count() by %s = k", "T | as %s | count", "T | render %s", "T | render pie with (%s = 1)", "T | join (%s) on k",
 		"T | join kind=inner (U) on $left.%s == $right.%s", "T | where f(`%s`) and a.b.%s", "let %s2 = 1; T | where %s2 == 1",
 	}
